@@ -2,7 +2,7 @@
 //! Executes every plan (random driver) or schedule ({"cfg":..,"steps":[..]}) in the file against
 //! the real sessions and writes the concatenated trace.
 use ggrs_verif_harness::driver::{run_plan, run_schedule};
-use ggrs_verif_harness::{quiet_panics, CfgDefault, CfgRepeat};
+use ggrs_verif_harness::{quiet_panics, CfgDefault, CfgDefaultWide, CfgRepeat, CfgRepeatWide};
 use serde_json::Value;
 use std::io::Write;
 
@@ -38,7 +38,27 @@ fn main() {
             .and_then(|v| v.as_str())
             .unwrap_or("repeat")
             .to_string();
-        let r = if let Some(steps) = plan.get("steps").and_then(|s| s.as_array()) {
+        // cfg.wide: four-byte inputs instead of one-byte inputs
+        let wide = plan
+            .get("cfg")
+            .and_then(|c| c.get("wide"))
+            .and_then(|v| v.as_bool())
+            .unwrap_or(false);
+        let r = if wide {
+            if let Some(steps) = plan.get("steps").and_then(|s| s.as_array()) {
+                let cfg = plan.get("cfg").expect("schedule cfg");
+                let cap = plan.get("linkcap").and_then(|v| v.as_u64()).map(|v| v as usize);
+                if pred == "default" {
+                    run_schedule::<CfgDefaultWide>(cfg, steps, detail, cap, &mut emit)
+                } else {
+                    run_schedule::<CfgRepeatWide>(cfg, steps, detail, cap, &mut emit)
+                }
+            } else if pred == "default" {
+                run_plan::<CfgDefaultWide>(plan, detail, &mut emit)
+            } else {
+                run_plan::<CfgRepeatWide>(plan, detail, &mut emit)
+            }
+        } else if let Some(steps) = plan.get("steps").and_then(|s| s.as_array()) {
             let cfg = plan.get("cfg").expect("schedule cfg");
             let cap = plan.get("linkcap").and_then(|v| v.as_u64()).map(|v| v as usize);
             if pred == "default" {
